@@ -34,6 +34,17 @@
         } \
     } while(0)
 
+/* A list of `count` elements was announced and its array could not be allocated */
+#define CHECK_LIST_ALLOC(ptr, count, dec) \
+    do { \
+        if ((count) > 0 && !(ptr)) { \
+            (dec)->status = CARQUET_ERROR_OUT_OF_MEMORY; \
+            snprintf((dec)->error_message, sizeof((dec)->error_message), \
+                "Out of memory for a list of %d elements", (int)(count)); \
+            return; \
+        } \
+    } while(0)
+
 #define VALIDATE_COUNT_STATUS(count, max, error) \
     do { \
         if ((count) < 0 || (count) > (max)) { \
@@ -332,6 +343,7 @@ static void parse_column_metadata(thrift_decoder_t* dec, carquet_arena_t* arena,
                 VALIDATE_COUNT(count, CARQUET_MAX_ENCODINGS, dec);
                 meta->num_encodings = count;
                 meta->encodings = carquet_arena_calloc(arena, count, sizeof(carquet_encoding_t));
+                CHECK_LIST_ALLOC(meta->encodings, count, dec);
                 for (int32_t i = 0; i < count; i++) {
                     meta->encodings[i] = (carquet_encoding_t)thrift_read_i32(dec);
                 }
@@ -344,6 +356,7 @@ static void parse_column_metadata(thrift_decoder_t* dec, carquet_arena_t* arena,
                 VALIDATE_COUNT(count, CARQUET_MAX_PATH_ELEMENTS, dec);
                 meta->path_len = count;
                 meta->path_in_schema = carquet_arena_calloc(arena, count, sizeof(char*));
+                CHECK_LIST_ALLOC(meta->path_in_schema, count, dec);
                 for (int32_t i = 0; i < count; i++) {
                     meta->path_in_schema[i] = arena_strdup_thrift(arena, dec);
                 }
@@ -369,6 +382,7 @@ static void parse_column_metadata(thrift_decoder_t* dec, carquet_arena_t* arena,
                 meta->num_key_value = count;
                 meta->key_value_metadata = carquet_arena_calloc(arena, count,
                     sizeof(parquet_key_value_t));
+                CHECK_LIST_ALLOC(meta->key_value_metadata, count, dec);
                 for (int32_t i = 0; i < count; i++) {
                     thrift_read_struct_begin(dec);
                     thrift_type_t ft;
@@ -405,6 +419,7 @@ static void parse_column_metadata(thrift_decoder_t* dec, carquet_arena_t* arena,
                 meta->num_encoding_stats = count;
                 meta->encoding_stats = carquet_arena_calloc(arena, count,
                     sizeof(parquet_page_encoding_stats_t));
+                CHECK_LIST_ALLOC(meta->encoding_stats, count, dec);
                 for (int32_t i = 0; i < count; i++) {
                     thrift_read_struct_begin(dec);
                     thrift_type_t ft;
@@ -511,6 +526,7 @@ static void parse_row_group(thrift_decoder_t* dec, carquet_arena_t* arena,
                 rg->num_columns = count;
                 rg->columns = carquet_arena_calloc(arena, count,
                     sizeof(parquet_column_chunk_t));
+                CHECK_LIST_ALLOC(rg->columns, count, dec);
                 for (int32_t i = 0; i < count; i++) {
                     parse_column_chunk(dec, arena, &rg->columns[i]);
                 }
@@ -596,6 +612,10 @@ carquet_status_t parquet_parse_file_metadata(
                 metadata->num_schema_elements = count;
                 metadata->schema = carquet_arena_calloc(arena, count,
                     sizeof(parquet_schema_element_t));
+                if (count > 0 && !metadata->schema) {
+                    CARQUET_SET_ERROR(error, CARQUET_ERROR_OUT_OF_MEMORY, "Out of memory for file metadata");
+                    return CARQUET_ERROR_OUT_OF_MEMORY;
+                }
                 for (int32_t i = 0; i < count; i++) {
                     parse_schema_element(&dec, arena, &metadata->schema[i]);
                 }
@@ -612,6 +632,10 @@ carquet_status_t parquet_parse_file_metadata(
                 metadata->num_row_groups = count;
                 metadata->row_groups = carquet_arena_calloc(arena, count,
                     sizeof(parquet_row_group_t));
+                if (count > 0 && !metadata->row_groups) {
+                    CARQUET_SET_ERROR(error, CARQUET_ERROR_OUT_OF_MEMORY, "Out of memory for file metadata");
+                    return CARQUET_ERROR_OUT_OF_MEMORY;
+                }
                 for (int32_t i = 0; i < count; i++) {
                     parse_row_group(&dec, arena, &metadata->row_groups[i]);
                 }
@@ -625,6 +649,10 @@ carquet_status_t parquet_parse_file_metadata(
                 metadata->num_key_value = count;
                 metadata->key_value_metadata = carquet_arena_calloc(arena, count,
                     sizeof(parquet_key_value_t));
+                if (count > 0 && !metadata->key_value_metadata) {
+                    CARQUET_SET_ERROR(error, CARQUET_ERROR_OUT_OF_MEMORY, "Out of memory for file metadata");
+                    return CARQUET_ERROR_OUT_OF_MEMORY;
+                }
                 for (int32_t i = 0; i < count; i++) {
                     thrift_read_struct_begin(&dec);
                     thrift_type_t ft;
